@@ -23,15 +23,17 @@ struct State
   bool ctrl_done;
 } st;
 
-enum { P_STOP_SAW_INSIDE = 0, P_BODY_AFTER_START, P_EXPECT_RAN, P_STOP_WHILE_RUNNING, P_REDUNDANT_START, P_REDUNDANT_STOP, P_DTOR_WHILE_RUNNING };
+enum { P_STOP_SAW_INSIDE = 0, P_BODY_AFTER_START, P_EXPECT_RAN, P_STOP_WHILE_RUNNING, P_REDUNDANT_START, P_REDUNDANT_STOP, P_DTOR_WHILE_RUNNING, P_WORKERS_BUSY };
+int blockers_started, blockers_released;
 const char *probe_names[] = {"stop_invoked_while_body_inside", "body_ran_after_start", "expect_progress_executed",
-                             "stop_while_running", "redundant_start", "redundant_stop", "destroy_while_running", nullptr};
+                             "stop_while_running", "redundant_start", "redundant_stop", "destroy_while_running", "every_tasking_thread_held_by_other_work", nullptr};
 const char *fault_names[] = {"spurious_wakeup", "clock_jump", "timed_wait_expired_while_peers_stalled", nullptr};
 
 void reset()
 {
   memset(&st, 0, sizeof st);
   memset(&plan, 0, sizeof plan);
+  blockers_started = blockers_released = 0;
 }
 
 void do_plan(int tier)
@@ -80,6 +82,8 @@ void do_plan(int tier)
   }
   bool task = plan.launch == 2 || (plan.launch == 0 && plan.init_threads > 4);
   st.owns_thread = !task;
+  unsigned lane = rksim_lane_bit();
+  plan.busy_workers = task && plan.init_threads >= 2 && !plan.ctrl_in_loop && (lane == LANE_INTERNAL || lane == LANE_TBB) && sim_plan(5) == 0;
   sim_set_step_cap(400000);
 }
 
@@ -101,6 +105,12 @@ int classify_stuck(int deadlock, char *cls, size_t n)
       snprintf(cls, n, "C03:S2:deadlock-in-start-stop");
     return 1;
   }
+  // step cap. With every tasking thread held by other work a task-launched loop never starts, and destroying it
+  // involves no waiting at all; the destructor ran in a fault-free fair phase with a budget of >= 100000 points
+  if (plan.busy_workers && ph == 2 && blockers_started > 0) {
+    snprintf(cls, n, "C03:S3:destructor-never-returns");
+    return 1;
+  }
   return 0;  // step cap: inconclusive
 }
 
@@ -108,8 +118,8 @@ void describe(char *buf, size_t n)
 {
   static const char *opn[] = {"start", "stop", "idle", "expect-progress"};
   static const char *ln[] = {"AUTO", "THREAD", "TASK"};
-  int k = snprintf(buf, n, "{\"launch\": \"%s\", \"init_threads\": %d, \"body_cost\": %d, \"spurious_wakeups\": %d, \"controller_is_another_loops_body\": %d, \"script\": [",
-                   ln[plan.launch], plan.init_threads, plan.body_cost, plan.spurious, plan.ctrl_in_loop);
+  int k = snprintf(buf, n, "{\"launch\": \"%s\", \"init_threads\": %d, \"body_cost\": %d, \"spurious_wakeups\": %d, \"controller_is_another_loops_body\": %d, \"tasking_threads_held_by_other_work\": %d, \"script\": [",
+                   ln[plan.launch], plan.init_threads, plan.body_cost, plan.spurious, plan.ctrl_in_loop, plan.busy_workers);
   for (int i = 0; i < plan.nops && k < (int)n - 40; i++) {
     if (plan.ops[i].kind == C03_OP_IDLE)
       k += snprintf(buf + k, n - k, "%s\"idle(%d)\"", i ? "," : "", plan.ops[i].arg);
@@ -206,10 +216,28 @@ void c03_body_exit()
 
 // S2: after start() returned (and no stop() since) the body runs again within the bound, in a
 // fault-free fair phase
+void c03_blocker()
+{
+  blockers_started++;
+  while (!blockers_released)
+    sim_yield();
+}
+void c03_wait_blockers(int n)
+{
+  unsigned long long bound = sim_steps() + 60000;
+  while (blockers_started < n && sim_steps() < bound)
+    sim_yield();
+  if (blockers_started >= n)
+    sim_probe(P_WORKERS_BUSY);
+}
+void c03_release_blockers() { blockers_released = 1; }
+
 void c03_expect_progress()
 {
   if (!st.running_wanted)
     return;
+  if (plan.busy_workers && !blockers_released)
+    return;  // no tasking thread is free: nothing can be expected of a task-launched loop yet
   sim_probe(P_EXPECT_RAN);
   sim_event(C03_EXPECT_BEGIN, 0, 0);
   unsigned long c0 = st.bodies;
